@@ -462,7 +462,7 @@ func ruleArity(w *World, r *Report) {
 			what := fmt.Sprintf("params[%d]", k)
 			have := in[ia.Block().Index]
 			pos := w.InstrPos(ia)
-			if w.Name(fn) == "(*parser).buildKeywordNode$1" {
+			if isCondOperatorFn(w, fn) {
 				// the `if` closure is only ever called by the engine with a one-element literal
 				// (checked by C06 R-CONDARG); it has no len test of its own.
 				r.Undecided(rule, pos, w.Name(fn), what, "cond-node closure: called only by the evaluator with []Value{res}; see C06 R-CONDARG")
@@ -786,6 +786,12 @@ func foldOpUnderMode(fn *ssa.Function, mode int64, elemType string) (string, str
 	if acc.Block() != hdr {
 		return "?", "(accumulator is not carried by the range loop over params)"
 	}
+	// every operand takes part: the accumulated value is returned only when the loop over params ran to its end
+	for _, ret := range rets {
+		if !edgeDominates(hdr, 1, ret.Block()) {
+			return "?", "(the accumulated value can be returned before every operand was folded in: the loop over params can be left early)"
+		}
+	}
 	tc := &termCtx{leaf: func(v ssa.Value) string {
 		if v == acc {
 			return "ACC"
@@ -798,14 +804,35 @@ func foldOpUnderMode(fn *ssa.Function, mode int64, elemType string) (string, str
 	// classify every incoming edge of the accumulator
 	var update []string
 	initOK := false
+	// the values the accumulator receives per path: a counting loop joins the arms in its post block first, so a
+	// back-edge value that is itself a join inside the loop is taken apart into its own incoming edges
+	type accEdge struct {
+		e        ssa.Value
+		pred, to *ssa.BasicBlock
+	}
+	var edges []accEdge
+	var expand func(e ssa.Value, pred, to *ssa.BasicBlock, depth int)
+	expand = func(e ssa.Value, pred, to *ssa.BasicBlock, depth int) {
+		if p2, isPhi := e.(*ssa.Phi); isPhi && p2 != acc && depth < 4 && hdr.Dominates(p2.Block()) && p2.Block() != hdr && p2.Comment != "&&" && p2.Comment != "||" {
+			for j, e2 := range p2.Edges {
+				expand(e2, p2.Block().Preds[j], p2.Block(), depth+1)
+			}
+			return
+		}
+		edges = append(edges, accEdge{e, pred, to})
+	}
 	for i, e := range acc.Edges {
 		pred := hdr.Preds[i]
 		if !hdr.Dominates(pred) {
 			// loop entry edge: the initial value is irrelevant because index 0 overwrites it
 			continue
 		}
+		expand(e, pred, hdr, 0)
+	}
+	for _, ae := range edges {
+		e, pred := ae.e, ae.pred
 		facts := factsAt(pred)
-		facts = append(facts, factsAtEdgeTo(pred, hdr)...)
+		facts = append(facts, factsAtEdgeTo(pred, ae.to)...)
 		// first-iteration edge: idx == 0
 		isInit := false
 		for _, f := range facts {
@@ -886,12 +913,14 @@ func checkEqShape(fn *ssa.Function) (bool, string) {
 	}
 	var direct, falseRet, trueRet int
 	var problems []string
+	var trueBlocks, cmpHdrs []*ssa.BasicBlock // where true is returned; headers of the loops that compare with P0
 	for _, ret := range valueReturns(fn) {
 		v := unwrapIface(ret.Results[0])
 		if b, ok := constBool(v); ok {
 			if b {
 				// true only at the exit of a range loop over params whose body compares with P0
 				trueRet++
+				trueBlocks = append(trueBlocks, ret.Block())
 				continue
 			}
 			// false: dominated by (P0 != elem) true
@@ -906,16 +935,17 @@ func checkEqShape(fn *ssa.Function) (bool, string) {
 				}
 				x, y := bo.X, bo.Y
 				kx, okx := paramIndex(x, params)
-				_, _, oky := rangeElemOf(y, params)
+				ch, _, oky := rangeElemOf(y, params)
 				if !(okx && oky) {
 					ky, oky2 := paramIndex(y, params)
-					_, _, okx2 := rangeElemOf(x, params)
+					h2, _, okx2 := rangeElemOf(x, params)
 					if oky2 && okx2 {
-						kx, okx, oky = ky, true, true
+						kx, okx, oky, ch = ky, true, true, h2
 					}
 				}
 				if okx && oky && kx == 0 {
 					okFalse = true
+					cmpHdrs = append(cmpHdrs, ch)
 				}
 			}
 			if okFalse {
@@ -923,6 +953,15 @@ func checkEqShape(fn *ssa.Function) (bool, string) {
 			} else {
 				problems = append(problems, "a constant false is returned without a dominating `P0 != operand`")
 			}
+			continue
+		}
+		if ok, why := eqFlagLoop(fn, params, ret, v); ok {
+			// the flag form: all := true; for i := 0; i < len(params) && all; i++ { all = P0 == params[i] }; return all
+			trueRet++
+			falseRet++
+			continue
+		} else if why != "" {
+			problems = append(problems, why)
 			continue
 		}
 		t := paramTermCtx(fn, nil).term(ret.Results[0])
@@ -947,6 +986,17 @@ func checkEqShape(fn *ssa.Function) (bool, string) {
 	if trueRet != 1 {
 		problems = append(problems, fmt.Sprintf("%d constant-true returns (want 1, after the loop)", trueRet))
 	}
+	for _, tb := range trueBlocks {
+		complete := false
+		for _, h := range cmpHdrs {
+			if h != nil && edgeDominates(h, 1, tb) {
+				complete = true
+			}
+		}
+		if !complete {
+			problems = append(problems, "true is returned on a path that is not the completion of the loop that compares every operand with P0")
+		}
+	}
 	if falseRet < 1 {
 		problems = append(problems, "no `false` return under P0 != operand")
 	}
@@ -954,6 +1004,80 @@ func checkEqShape(fn *ssa.Function) (bool, string) {
 		return false, strings.Join(problems, "; ")
 	}
 	return true, fmt.Sprintf("value returns: %d× (P0 == P1) under len==2, %d× false under P0 != operand, true after the loop", direct, falseRet)
+}
+
+// eqFlagLoop: the returned value is a loop-carried flag that starts true, is set to `P0 == params[i]` by every
+// iteration of a loop over all operands, and the loop continues only while it is true — so it ends false at the
+// first operand that differs from P0 and true when none does. A non-empty reason means "a flag loop, but not
+// this one".
+func eqFlagLoop(fn *ssa.Function, params ssa.Value, ret *ssa.Return, v ssa.Value) (bool, string) {
+	flag, ok := v.(*ssa.Phi)
+	if !ok {
+		return false, ""
+	}
+	if bt, okb := flag.Type().Underlying().(*types.Basic); !okb || bt.Kind() != types.Bool {
+		return false, ""
+	}
+	hdr := flag.Block()
+	if !hdr.Dominates(ret.Block()) || reachable(ret.Block(), hdr) {
+		return false, ""
+	}
+	back := 0
+	type fe struct {
+		e        ssa.Value
+		pred, to *ssa.BasicBlock
+	}
+	var edges []fe
+	var expand func(e ssa.Value, pred, to *ssa.BasicBlock, depth int)
+	expand = func(e ssa.Value, pred, to *ssa.BasicBlock, depth int) {
+		if p2, isPhi := e.(*ssa.Phi); isPhi && p2 != flag && depth < 4 && hdr.Dominates(p2.Block()) && p2.Block() != hdr && p2.Comment != "&&" && p2.Comment != "||" {
+			for j, e2 := range p2.Edges {
+				expand(e2, p2.Block().Preds[j], p2.Block(), depth+1)
+			}
+			return
+		}
+		edges = append(edges, fe{e, pred, to})
+	}
+	for i, e := range flag.Edges {
+		pred := hdr.Preds[i]
+		if !hdr.Dominates(pred) {
+			if b, okc := constBool(e); !okc || !b {
+				return false, "the all-equal flag does not start true"
+			}
+			continue
+		}
+		expand(e, pred, hdr, 0)
+	}
+	for _, ed := range edges {
+		back++
+		bo, okB := ed.e.(*ssa.BinOp)
+		if !okB || bo.Op != token.EQL {
+			return false, "the all-equal flag is updated with something other than P0 == operand: " + describe(ed.e)
+		}
+		x, y := bo.X, bo.Y
+		if _, _, isElem := rangeElemOf(x, params); isElem {
+			x, y = y, x
+		}
+		k, okx := paramIndex(x, params)
+		h2, _, oky := rangeElemOf(y, params)
+		if !okx || k != 0 || !oky || h2 != hdr {
+			return false, "the all-equal flag is not updated with P0 == the operand of this iteration"
+		}
+		// the loop goes on only while the flag is true
+		cont := false
+		for _, f := range append(factsAt(ed.pred), factsAtEdgeTo(ed.pred, ed.to)...) {
+			if f.Cond == ssa.Value(flag) && f.Truth {
+				cont = true
+			}
+		}
+		if !cont {
+			return false, "the loop goes on after an operand differed: the flag only reflects the last operand"
+		}
+	}
+	if back == 0 {
+		return false, ""
+	}
+	return true, ""
 }
 
 // ---- R-IFACEEQ ----------------------------------------------------------------
@@ -1276,6 +1400,12 @@ func onlyErrorReturnsFrom(b *ssa.BasicBlock) bool {
 // ---- witnesses --------------------------------------------------------------
 
 var c18Witnesses = []Witness{
+	{Name: "benign-equals-all-equal-flag-loop", Rule: "R-FOLD", Benign: true, Edits: []Edit{
+		{File: "operator.go", Old: "\tv := params[0]\n\tfor _, p := range params {\n\t\tif v != p {\n\t\t\treturn false, nil\n\t\t}\n\t}\n\treturn true, nil\n}\n\nfunc comparisonNotEquals(", New: "\tv := params[0]\n\tallEqual := true\n\tfor i := 0; i < len(params) && allEqual; i++ {\n\t\tallEqual = v == params[i]\n\t}\n\treturn allEqual, nil\n}\n\nfunc comparisonNotEquals("}}},
+	{Name: "equals-flag-loop-keeps-last-comparison", Rule: "R-FOLD", Edits: []Edit{
+		{File: "operator.go", Old: "\tv := params[0]\n\tfor _, p := range params {\n\t\tif v != p {\n\t\t\treturn false, nil\n\t\t}\n\t}\n\treturn true, nil\n}\n\nfunc comparisonNotEquals(", New: "\tv := params[0]\n\tallEqual := true\n\tfor i := 0; i < len(params); i++ {\n\t\tallEqual = v == params[i]\n\t}\n\treturn allEqual, nil\n}\n\nfunc comparisonNotEquals("}}},
+	{Name: "equals-scan-stops-after-three-operands", Rule: "R-FOLD", Edits: []Edit{
+		{File: "operator.go", Old: "\tv := params[0]\n\tfor _, p := range params {\n\t\tif v != p {\n\t\t\treturn false, nil\n\t\t}\n\t}\n\treturn true, nil\n}\n\nfunc comparisonNotEquals(", New: "\tv := params[0]\n\tfor i, p := range params {\n\t\tif i > 2 {\n\t\t\tbreak\n\t\t}\n\t\tif v != p {\n\t\t\treturn false, nil\n\t\t}\n\t}\n\treturn true, nil\n}\n\nfunc comparisonNotEquals("}}},
 	{Name: "alias-mod-is-div", Rule: "R-ALIAS", Edits: []Edit{{File: "operator.go", Old: `"%":   arithmetic{mode: mod}.execute,`, New: `"%":   arithmetic{mode: div}.execute,`}}},
 	{Name: "alias-andand-is-or", Rule: "R-ALIAS", Edits: []Edit{{File: "operator.go", Old: `"&&": logic{mode: and}.execute,`, New: `"&&": logic{mode: or}.execute,`}}},
 	{Name: "mod-zero-test-deleted", Rule: "R-DIV0", Edits: []Edit{{File: "operator.go", Old: `			case mod:
